@@ -28,7 +28,7 @@ def fail(ident, what, witness, wclass="value"):
         failures[ident] = {"ident": ident, "witness_class": wclass, "what": what, "witness": witness}
 
 
-TOK = ["a", " ", "\n", "==", "===", "=", "* ", "# ", ": ", "; ", "*# ", "----", "{|", "|-", "|}", "|", "||", "!", "!!", "|+",
+TOK = ["{{T||1=x}}", "{{a|", "|1=", "||", "a", " ", "\n", "==", "===", "=", "* ", "# ", ": ", "; ", "*# ", "----", "{|", "|-", "|}", "|", "||", "!", "!!", "|+",
        "'''", "''", "[[", "]]", "[", "]", "[http://x.com:80/p y]", "https://e.org", "{{", "}}", "{{{", "}}}", "{{a|x}}",
        "<b>", "</b>", "<i>", "</i>", "<pre>", "</pre>", "<br>", "<br/>", "<ref>", "</ref>", "<span class=\"x\">", "</span>",
        "</span x>", "<nowiki>", "</nowiki>", "<nowiki/>", "<!--", "-->", "<div>", "</div>", "<table>", "<tr>", "<td>", "</td>",
@@ -87,6 +87,13 @@ def check_node(n, problems, parent_kind):
         problems.append(f"{k.name} without a marker prefix")
     if k in (NodeKind.TEMPLATE, NodeKind.TEMPLATE_ARG, NodeKind.LINK, NodeKind.URL, NodeKind.PARSER_FN) and not n.largs:
         problems.append(f"{k.name} without arguments")
+    if k == NodeKind.TEMPLATE and hasattr(n, "template_parameters"):
+        try:
+            tp = n.template_parameters
+            if not isinstance(tp, dict):
+                problems.append("template_parameters is not a dict")
+        except Exception as ex:
+            problems.append(f"template_parameters raises {type(ex).__name__}")
     check_children(n.children, f"{k.name}.children", problems, k)
 
 
